@@ -429,6 +429,7 @@ def check_brackets(evs):
         return 'a feature event precedes run-Started'
     if evs[-1] != 'finished':
         return 'stream does not end with run-Finished'
+    evs = ['parsing_finished' if e.startswith('parsing_finished') else e for e in evs]
     if evs.count('started') != 1 or evs.count('finished') != 1 or evs.count('parsing_finished') != 1:
         return 'run-Started / ParsingFinished / run-Finished not exactly once'
     open_f, open_r, done_f, done_r = {}, {}, set(), set()
